@@ -61,6 +61,15 @@ def holder_id(t):
     return None
 
 
+def _frees_everything(e):
+    """td->op->free_struct(td, ptr, ASFM_FREE_EVERYTHING): only that method releases the structure itself
+    (ASN_STRUCT_FREE); _CONTENTS_ONLY and _RESET keep it."""
+    if e.get("slot") != "free_struct":
+        return False
+    a = e.get("args", [])
+    return len(a) >= 3 and a[2].get("const") == 0
+
+
 class Summaries:
     """allocating helpers (return an owned block) and releasing helpers (free parameter i)"""
 
@@ -88,7 +97,7 @@ class Summaries:
                         idxs = [0]
                     elif cal in self.release:
                         idxs = sorted(self.release[cal])
-                    elif e.get("slot") == "free_struct":
+                    elif _frees_everything(e):
                         idxs = [1]
                     for ai in idxs:
                         if ai >= len(e["args"]):
@@ -116,7 +125,7 @@ class Summaries:
             return [0]
         if cal in self.release:
             return sorted(self.release[cal])
-        if e.get("slot") == "free_struct":
+        if _frees_everything(e):
             return [1]
         return []
 
